@@ -105,7 +105,11 @@ Definition hkey_eqb (a b : bstr * bstr) : bool := beqb (fst a) (fst b) && beqb (
 Record registry := { rrdp_uris : list ((bstr * bstr) * bstr);   (* uri -> directory name *)
                      rrdp_dirs : list bstr }.
 
-Definition reg_empty : registry := {| rrdp_uris := []; rrdp_dirs := [] |}.
+(* DumpRegistry::new (after "fix: reserve the dump directory names that are not a plain new name"):
+   the directory of the rsync repository and the names that are not a normal path component are
+   marked as used from the start *)
+Definition reserved : list bstr := [bytes_of "rsync"; []; [DOT]; [DOT; DOT]].
+Definition reg_init : registry := {| rrdp_uris := []; rrdp_dirs := reserved |}.
 
 Fixpoint reg_lookup (k : bstr * bstr) (l : list ((bstr * bstr) * bstr)) : option bstr :=
   match l with
